@@ -18,7 +18,8 @@ ASSUMPTIONS = ["bytes= with length/offset is the documented truncation route: a 
 
 REJECT = 'REJECT'
 INT_NAMES = ['uint', 'int', 'uintbe', 'intbe', 'uintle', 'intle', 'uintne', 'intne', 'u', 'i']
-ROUTES = ['kw_length', 'kw_name', 'token', 'token_plain', 'setattr_name', 'setattr_existing', 'pack', 'pack_kwlen', 'pack_kwval', 'dtype_build', 'array_set', 'array_append']
+ROUTES = ['kw_length', 'kw_name', 'token', 'token_plain', 'setattr_name', 'setattr_existing', 'pack', 'pack_kwlen', 'pack_kwval', 'dtype_build', 'array_set', 'array_append',
+          'array_slice', 'array_slice_step', 'array_slice_grow', 'array_insert', 'array_init']
 
 
 def fits_int(name, n, v):
@@ -91,17 +92,44 @@ def run_int(case):
     lo, hi = codecs.int_range(name, n)
     nt = min(abs(v - lo), abs(v - hi)) <= 1
     pv = str(v) if case['as_str'] and route in ('kw_length', 'kw_name', 'dtype_build') else v
-    if route in ('array_set', 'array_append'):
-        arr = bs.Array(f'{name}{n}', [0, 1 if hi >= 1 else 0, 0])
+    if route.startswith('array_'):
+        one = 1 if hi >= 1 else 0
+        z = encode(name, 0, n)
+        o = encode(name, one, n)
+        if route == 'array_init':
+            r = attempt(bs.Array, f'{name}{n}', [one, v, 0])
+            if exp == REJECT:
+                require(is_raised(r, ValueError), 'Array created from an out-of-range item must raise ValueError', got=r, case=case)
+            else:
+                require(not is_raised(r) and r.data.bin == o + exp + z, 'Array items were not stored with their exact encodings', got=r, case=case)
+            return {'nt': nt, 'labels': [name, route, 'reject' if exp == REJECT else 'ok']}
+        arr = bs.Array(f'{name}{n}', [0, one, 0, one])
         before = arr.data.bin
-        r = attempt(arr.__setitem__, 1, v) if route == 'array_set' else attempt(arr.append, v)
+        if route == 'array_set':
+            r = attempt(arr.__setitem__, 1, v)
+            want = before[:n] + (exp if exp != REJECT else '') + before[2 * n:]
+        elif route == 'array_append':
+            r = attempt(arr.append, v)
+            want = before + (exp if exp != REJECT else '')
+        elif route == 'array_insert':
+            r = attempt(arr.insert, 1, v)
+            want = before[:n] + (exp if exp != REJECT else '') + before[n:]
+        elif route == 'array_slice':         # same number of items, the good one first
+            r = attempt(arr.__setitem__, slice(0, 2), [one, v])
+            want = o + (exp if exp != REJECT else '') + before[2 * n:]
+        elif route == 'array_slice_step':    # extended slice, the good one first
+            r = attempt(arr.__setitem__, slice(0, 4, 2), [one, v])
+            want = o + before[n:2 * n] + (exp if exp != REJECT else '') + before[3 * n:]
+        else:                                # slice that changes the number of items
+            r = attempt(arr.__setitem__, slice(1, 2), [one, v, one])
+            want = before[:n] + o + (exp if exp != REJECT else '') + o + before[2 * n:]
         if exp == REJECT:
             require(is_raised(r, ValueError), 'out-of-range Array item must raise ValueError', got=r, case=case)
-            require(arr.data.bin == before and len(arr) == 3, 'rejected Array item changed the Array', before=before[:64], after=arr.data.bin[:64])
+            require(arr.data.bin == before and len(arr) == 4, 'a rejected Array item assignment changed the Array (earlier items of the same call were already written)',
+                    before=before[:64], after=arr.data.bin[:64], case=case)
         else:
             require(not is_raised(r), 'in-range Array item raised', got=r, case=case)
-            want = before[:n] + exp + before[2 * n:] if route == 'array_set' else before + exp
-            require(arr.data.bin == want, 'Array item was not stored with its exact encoding', got=arr.data.bin[:96], expected=want[:96])
+            require(arr.data.bin == want, 'Array item was not stored with its exact encoding', got=arr.data.bin[:96], expected=want[:96], case=case)
         return {'nt': nt, 'labels': [name, route, 'reject' if exp == REJECT else 'ok']}
     res, target = do_route(bs, route, name, n, pv, str(v), case['cls'])
     if exp == REJECT:
